@@ -873,7 +873,13 @@ def mon_capi(case, obs):
         if boot:
             # keys typed by the stepping thread after the boot are transmitted on RS-232 once each, in order, and every
             # transmitted byte is handed out exactly once (polls + what is still pending)
-            typed = [int(o.split(':')[1], 16) for o in thr_ops[0] if o.startswith('qb:')]
+            typed = []
+            nloops = 0
+            for o in thr_ops[0]:
+                if o.startswith('loop'):
+                    nloops += 1
+                elif o.startswith('qb:') and nloops >= 5200:
+                    typed.append(int(o.split(':')[1], 16))      # keys injected while the firmware still boots are not judged
             if typed:
                 got0 = [b for (_, b) in polled[0]] + post['ports'][0]['txq']
                 if got0 != pre['ports'][0]['txq'] + typed:
